@@ -129,6 +129,7 @@ func vfC03Run(cs vfC03Case) (msg string, nontrivial bool, nOps int) {
 	total := len(chunks) + 1
 	consumedBefore := 0
 	cur := 0
+	afterInterrupt := false
 	for i, op := range cs.Ops {
 		ref := vfC03RefOp(cs.Stream, cur, op)
 		if ref.kind == "incomplete" {
@@ -166,7 +167,20 @@ func vfC03Run(cs vfC03Case) (msg string, nontrivial bool, nOps int) {
 				return fmt.Sprintf("op %d %+v: reference says interrupt (Ctrl-C at %d), implementation returned %s err=%v",
 					i, op, ref.lastByte, vfShort(got, 40), err), nontrivial, nOps
 			}
-			return "", nontrivial, nOps // the transfer is dead after an interrupt
+			// A transfer is dead after an interrupt, but its reader is not: a relay hands what is left to the other side (popBuffer),
+			// and a caller may read on. Where the reader stands afterwards is independent of the segmentation only if the LF that
+			// ends the interrupted piece lies in the same read as the Ctrl-C: then everything behind that LF is still to come.
+			lf := bytes.IndexByte(cs.Stream[ref.lastByte:], '\n')
+			if lf < 0 || chunkOf(ref.lastByte+lf) != chunkOf(ref.lastByte) {
+				return "", nontrivial, nOps
+			}
+			if consumed := total - len(b.bufCh); consumed != chunkOf(ref.lastByte)+1 {
+				return fmt.Sprintf("op %d %+v: interrupted by the Ctrl-C at %d after pulling %d chunks, it lies in chunk %d", i, op, ref.lastByte, consumed, chunkOf(ref.lastByte)), nontrivial, nOps
+			}
+			consumedBefore = chunkOf(ref.lastByte) + 1
+			cur = ref.lastByte + lf + 1
+			afterInterrupt = true
+			continue
 		}
 		if err != nil {
 			return fmt.Sprintf("op %d %+v: unexpected error %v (reference %s)", i, op, err, vfShort(ref.data, 40)), nontrivial, nOps
@@ -190,6 +204,19 @@ func vfC03Run(cs vfC03Case) (msg string, nontrivial bool, nOps int) {
 		}
 		consumedBefore = consumed
 		cur = ref.cursor
+	}
+	// what the reads left behind is handed on piece by piece (the relay's flush): nothing lost, nothing twice
+	var rest []byte
+	for {
+		piece := b.popBuffer()
+		if piece == nil {
+			break
+		}
+		rest = append(rest, piece...)
+	}
+	if want := append(append([]byte(nil), cs.Stream[cur:]...), "SENTINEL\n"...); !bytes.Equal(rest, want) {
+		return fmt.Sprintf("after %d reads (interrupted before: %v) the reader stands at %d; handing on what is left gave %s, the stream continues with %s",
+			nOps, afterInterrupt, cur, vfShort(rest, 60), vfShort(want, 60)), nontrivial, nOps
 	}
 	return "", nontrivial, nOps
 }
